@@ -129,6 +129,118 @@ c16_assertion_divisor!(c16_assertion_divisor_8, 8, 12);
 // @ob id=C16 tier=quick req=1 to=1200 name=c16_assertion_divisor_16 funcs="ConstraintDivisor::{from_assertion,evaluate_at},Assertion::get_num_steps" bounds="trace length 16" sym="assertion kind, column, first step, stride; step"
 c16_assertion_divisor!(c16_assertion_divisor_16, 16, 20);
 
+
+// ---- from_transition with the number of exemptions ENUMERATED (one harness per k): with k symbolic a loop over the exemption
+// points whose trip count is symbolic can exhaust memory on trees that compute the points iteratively (seeded change C16A);
+// with k concrete everything but the step is constant-folded.
+macro_rules! c16_transition_k {
+    ($name:ident, $n:expr, $k:expr, $unwind:expr) => {
+        #[kani::proof]
+        #[kani::unwind($unwind)]
+        #[kani::stub(alloc::fmt::format, nofmt)]
+        fn $name() {
+            let d = ConstraintDivisor::<T>::from_transition($n, $k);
+            assert!(d.numerator().len() == 1 && d.numerator()[0].0 == $n && d.numerator()[0].1 == T::ONE);
+            assert!(d.exemptions().len() == $k);
+            assert!(d.degree() == $n - $k);
+            let g = T::get_root_of_unity(($n as usize).ilog2());
+            let i: usize = kani::any();
+            kani::assume(i < $n);
+            let x = g.exp((i as u64).into());
+            let ex = d.evaluate_exemptions_at(x);
+            assert!((ex == T::ZERO) == (i >= $n - $k));
+            // every exemption point is the trace-domain point of one of the last k steps
+            let j: usize = kani::any();
+            kani::assume(j < $k);
+            assert!(d.exemptions()[j] == g.exp((($n - $k + j) as u64).into()));
+            kani::cover!(i == $n - $k);
+            core::mem::forget(d);
+        }
+    };
+}
+// @ob id=C16 tier=quick req=1 to=600 name=c16_transition_8_k1 funcs="ConstraintDivisor::{from_transition,degree,evaluate_exemptions_at,exemptions}" bounds="trace length 8, 1 exemption" sym="step, exemption index" enum="number of exemptions"
+c16_transition_k!(c16_transition_8_k1, 8, 1, 12);
+// @ob id=C16 tier=quick req=1 to=600 name=c16_transition_8_k2 funcs="ConstraintDivisor::{from_transition,degree,evaluate_exemptions_at,exemptions}" bounds="trace length 8, 2 exemptions" sym="step, exemption index" enum="number of exemptions"
+c16_transition_k!(c16_transition_8_k2, 8, 2, 12);
+// @ob id=C16 tier=quick req=1 to=600 name=c16_transition_8_k3 funcs="ConstraintDivisor::{from_transition,degree,evaluate_exemptions_at,exemptions}" bounds="trace length 8, 3 exemptions" sym="step, exemption index" enum="number of exemptions"
+c16_transition_k!(c16_transition_8_k3, 8, 3, 12);
+// @ob id=C16 tier=quick req=1 to=600 name=c16_transition_8_k5 funcs="ConstraintDivisor::{from_transition,degree,evaluate_exemptions_at,exemptions}" bounds="trace length 8, 5 exemptions" sym="step, exemption index" enum="number of exemptions"
+c16_transition_k!(c16_transition_8_k5, 8, 5, 12);
+// @ob id=C16 tier=quick req=1 to=600 name=c16_transition_16_k4 funcs="ConstraintDivisor::{from_transition,degree,evaluate_exemptions_at,exemptions}" bounds="trace length 16, 4 exemptions" sym="step, exemption index" enum="number of exemptions"
+c16_transition_k!(c16_transition_16_k4, 16, 4, 20);
+// @ob id=C16 tier=quick req=1 to=600 name=c16_transition_16_k9 funcs="ConstraintDivisor::{from_transition,degree,evaluate_exemptions_at,exemptions}" bounds="trace length 16, 9 exemptions" sym="step, exemption index" enum="number of exemptions"
+c16_transition_k!(c16_transition_16_k9, 16, 9, 20);
+// @ob id=C16 tier=thorough req=1 to=1200 name=c16_transition_32_k3 funcs="ConstraintDivisor::{from_transition,degree,evaluate_exemptions_at,exemptions}" bounds="trace length 32, 3 exemptions" sym="step, exemption index" enum="number of exemptions"
+c16_transition_k!(c16_transition_32_k3, 32, 3, 36);
+// @ob id=C16 tier=thorough req=1 to=1200 name=c16_transition_64_k6 funcs="ConstraintDivisor::{from_transition,degree,evaluate_exemptions_at,exemptions}" bounds="trace length 64, 6 exemptions" sym="step, exemption index" enum="number of exemptions"
+c16_transition_k!(c16_transition_64_k6, 64, 6, 68);
+
+// ---- "ill-formed assertions are refused", for ALL constructor arguments: whenever a constructor RETURNS, its arguments are
+// well-formed. The constructor's own panics are the expected refusals (expect=fail: they are reported as failed checks); the
+// marker assertion below must never fail -- `forbid=` makes the runner treat exactly that check as the obligation.
+// @ob id=C16 tier=quick req=1 to=300 expect=fail forbid="ACCEPTED-ILL-FORMED" refuse_in="validate_stride,>::sequence,>::periodic" funcs="Assertion::{periodic,sequence}" bounds="none (full usize range); sequences of up to 9 values" sym="column, first step, stride, number of values" desc="a periodic/sequence assertion that is constructed has a power-of-two stride >= 2, a first step below the stride and a power-of-two number of values"
+#[kani::proof]
+#[kani::unwind(12)]
+#[kani::stub(alloc::fmt::format, nofmt)]
+fn c16_constructed_is_wellformed() {
+    let col: usize = kani::any();
+    let f: usize = kani::any();
+    let s: usize = kani::any();
+    if kani::any() {
+        let a = Assertion::periodic(col, f, s, T::ONE);
+        assert!(s.is_power_of_two() && s >= 2 && f < s, "ACCEPTED-ILL-FORMED periodic assertion");
+        assert!(a.first_step() == f && a.stride() == s && a.column() == col, "ACCEPTED-ILL-FORMED periodic accessors");
+        kani::cover!(f + 1 == s);
+        core::mem::forget(a);
+    } else {
+        let n: usize = kani::any();
+        kani::assume(n <= 9);
+        let mut values = Vec::new();
+        let mut i = 0;
+        while i < 9 { if i < n { values.push(T::ONE); } i += 1; }
+        let a = Assertion::sequence(col, f, s, values);
+        assert!(s.is_power_of_two() && s >= 2 && f < s && n >= 1 && n.is_power_of_two(), "ACCEPTED-ILL-FORMED sequence assertion");
+        assert!(a.values().len() == n && a.first_step() == f, "ACCEPTED-ILL-FORMED sequence accessors");
+        kani::cover!(n == 8);
+        core::mem::forget(a);
+    }
+}
+
+// the divisor of EVERY constructible periodic/sequence assertion (first step not pre-constrained by the harness) vanishes on
+// exactly the steps first + j*stride
+// @ob id=C16 tier=quick req=1 to=900 expect=fail forbid="DIVISOR-STEPS" refuse_in="validate_stride,>::sequence,>::periodic" funcs="Assertion::{periodic,sequence},ConstraintDivisor::{from_assertion,evaluate_at}" bounds="trace length 8" sym="kind, first step (0..=16), stride, step" desc="divisor of any constructible assertion vanishes exactly on first + j*stride; refused constructor arguments are the expected failures"
+#[kani::proof]
+#[kani::unwind(12)]
+#[kani::stub(alloc::fmt::format, nofmt)]
+fn c16_divisor_any_constructible_8() {
+    let f: usize = kani::any();
+    kani::assume(f <= 16);
+    let ls: u32 = kani::any();
+    kani::assume(ls <= 3);
+    let s = 1usize << ls;
+    let a = if kani::any() { Assertion::periodic(0, f, s, T::ONE) } else {
+        kani::assume(s < 8);
+        let count = 8 / s;
+        let mut values = Vec::new();
+        let mut i = 0;
+        while i < 8 { if i < count { values.push(T::ONE); } i += 1; }
+        Assertion::sequence(0, f, s, values)
+    };
+    if a.validate_trace_length(8).is_ok() {
+        let d = ConstraintDivisor::<T>::from_assertion(&a, 8);
+        let g = T::get_root_of_unity(3);
+        let i: usize = kani::any();
+        kani::assume(i < 8);
+        let x = g.exp((i as u64).into());
+        let named = i >= f && (i - f) % s == 0;
+        assert!((d.evaluate_at(x) == T::ZERO) == named, "DIVISOR-STEPS: divisor vanishes on a step the assertion does not name (or misses one)");
+        kani::cover!(named && f > 0);
+        kani::cover!(!named);
+        core::mem::forget(d);
+    }
+    core::mem::forget(a);
+}
+
 // ill-formed assertions are refused (documented panics): each twin must be violated
 // @ob id=C16 tier=quick req=1 to=300 expect=fail desc="refusal witness: periodic assertion with first step >= stride panics"
 #[kani::proof]
